@@ -31,6 +31,7 @@ ViewClauses(r) ==
             <<"rows/cols/nonzeros agree with the source", r.rows = A.n /\ r.cols = A.m /\ r.nnz = NNZ(A)>>,
             <<"view is the same operator", exp>>,
             <<"generic CRS constructor = row iteration", r.ctor_same>>,
+            <<"row iterators are independent objects (two alive at once = each read alone)", Has(r, "iters_independent") => r.iters_independent>>,
             <<"spmv on the adapter = definition", wf /\ r.y = SpmvDef(r.out, r.x)>>,
             <<"zero-copy: same pointers, not owned", Has(r, "ident") => (r.ident /\ ~r.own /\ r.bytes0)>>,
             <<"reordered_vector / forward / inverse",
